@@ -655,7 +655,52 @@ def r11(ctx):
         raise AnalysisBroken('C07.R11: only %d calls of checkValueRange found' % n)
 
 
+def r12(ctx):
+    ctx.rule('C07.R12', 'checkValueRange accepts exactly the raw values inside the configured range: its body, evaluated from the '
+             'typed AST for an 8 bit integer type (all 256 raw values; signed with ranges below zero, around zero, above zero, '
+             'full and single-valued; unsigned likewise), returns RESULT_OK exactly for min <= value <= max in the numeric '
+             'order of the type (two\'s complement for signed types) - whatever form the comparison takes', minimum=2)
+    import tinyeval
+    fb = ctx.fb
+    fn = fb.fn('ebusd::NumberDataType::checkValueRange')
+    ctx.touch(fn)
+    byname = {}
+    for f in fb.functions:
+        if f.blocks and f.cls in ('ebusd::NumberDataType', 'ebusd::DataType'):
+            byname.setdefault((f.name, f.sig), f)
+    SIG = None
+    for f in fb.functions:
+        if f.name == 'ebusd::NumberDataType::checkValueRange':
+            for c in f.all('CXXMemberCallExpr'):
+                if (f.nodes[c].get('callee') or '').endswith('::hasFlag') and f.val(f.nodes[c]['args'][0]) is not None:
+                    if SIG is None:
+                        SIG = f.val(f.nodes[c]['args'][0])     # the first flag tested decides signed / unsigned
+            break
+    if SIG is None:
+        raise AnalysisBroken('C07.R12: signedness flag of checkValueRange not found')
+
+    def resolve(name, sig):
+        return byname.get((name, sig))
+    for signed, ranges in ((True, [(-30, -10), (-5, 5), (1, 100), (-128, 127), (0, 0), (-1, -1), (10, 20), (-128, -128), (127, 127)]),
+                           (False, [(0, 255), (10, 20), (0, 0), (200, 250), (255, 255)])):
+        bad = []
+        try:
+            for lo, hi in ranges:
+                for raw in range(256):
+                    num = raw - 256 if signed and raw >= 128 else raw
+                    fields = {'m_flags': SIG if signed else 0, 'm_bitCount': 8, 'm_minValue': lo & 0xff, 'm_maxValue': hi & 0xff}
+                    got = tinyeval.run(fn, fields, [raw, 0], resolve=resolve)
+                    want_ok = lo <= num <= hi
+                    if (got == 0) != want_ok and len(bad) < 4:
+                        bad.append('range %d..%d: %d is %s' % (lo, hi, num, 'accepted' if got == 0 else 'rejected'))
+        except tinyeval.Unknown as e:
+            raise AnalysisBroken('C07.R12: checkValueRange uses a construct the evaluation does not model (%s)' % e)
+        ctx.ob('C07.R12', fn, fn.body, not bad, '%s 8 bit range check' % ('signed' if signed else 'unsigned'),
+               '; '.join(bad) or 'accepts exactly min..max for %d ranges x 256 values' % len(ranges))
+
+
 def run(ctx):
+    r12(ctx)
     r11(ctx)
     r10(ctx)
     r9(ctx)
